@@ -60,6 +60,7 @@ func workerMain() {
 			r.Err = "no such harness function: " + j.Harness
 		} else {
 			interp.SetTier(j.Tier)
+			l.machine.SetQueryTag(j.Harness)
 			r.Res = l.machine.RunPath(fn, j.Prefix, j.Opts)
 			if j.WantScript {
 				r.Script = l.machine.Script()
